@@ -28,7 +28,7 @@ CLAIMS['C20'] = dict(
     text='Static analysis of minidump-stackwalk: no undischarged panic edge in the binary (the --features unimplemented!() arm is discharged by agreement between the clap value_parser list and the handled arms), '
          'every process::exit has status 1 after a diagnostic, no failure exit is reachable after a printer call, the output writers are handed only to ProcessState::print/print_brief/print_json and print_minidump_dump, '
          'and each printer call is control-dependent on the option that selects it with cli.brief / cli.pretty / the cyborg file wired as documented. This decides the wiring clauses for every input and option set; '
-         'byte equality with the library follows from "same call, same writer" and is not compared on values. Raw-dump mode: every fetched stream type is printed and no eagerly evaluated fallback take()s a stream (C20.6). C20.7: every report-shaping Cli field has a read that dominates process_minidump_with_options. C20.8: files are opened for writing only through File::create / create_new (called or as a function value) or an OpenOptions chain that truncates, and --output-file / --cyborg are opened that way, so a destination holds nothing but this run\'s report.',
+         'byte equality with the library follows from "same call, same writer" and is not compared on values. Raw-dump mode: every fetched stream type is printed and no eagerly evaluated fallback take()s a stream (C20.6). C20.7: every report-shaping Cli field has a read that dominates process_minidump_with_options. C20.8: files are opened for writing only through File::create / create_new (called or as a function value) or an OpenOptions chain that truncates, and --output-file / --cyborg are opened that way, so a destination holds nothing but this run\'s report. C20.7b: feature defaults are only OR-ed with their flags. C20.2b: failure diagnostics reach standard error (known finding for --log-file).',
     note='Trusted: clap (value_parser and ArgGroup enforcement), tokio::select!, rustc MIR, the extractor. Renaming the mode variables (human/json/raw_dump) is reported as a missing anchor.',
     ref='DESIGN.md §3 C20')
 
@@ -57,7 +57,7 @@ CLAIMS['C01'] = dict(
          'is discharged by constant folding, type-history intervals, a dominating guard on the same expression trees, a known idiom, trusted third-party macro text, or a reviewed per-site argument; every loop is driven by a finite std iterator '
          'or has a reviewed variant; every allocation size is a constant, a len() of existing data or the validated payload of ensure_count_in_bound. This holds for every byte string because it quantifies over code paths. '
          'Four genuine defects found this way (unknown handle info type unwrap, cyclic object-info chain, exception-parameter printing, unimplemented!() context printers) were repaired in /repo. '
-         'Not decided: panics inside dependencies, a numeric memory bound.',
+         'Not decided: panics inside dependencies, a numeric memory bound. C01.6: the degree of retained memory of every stream reader (copies of file-controlled length under loops whose trip count comes from the file, followed through calls and iterator closures) is at most 2; the one reader of degree 3 (CrashpadInfo) is a recorded known finding.',
     note='Trusted: rustc MIR construction, the extractor, dependencies through the panicking-API table only, derive / third-party macro output, the reviewed tables under py/tables (void when their backing rule fails). usize = 64 bit.',
     ref='DESIGN.md §3 C01')
 CLAIMS['C12'] = dict(
@@ -130,7 +130,7 @@ CLAIMS['C08'] = dict(
     technique='who-may-call, constructor guard dominance, path-sensitive skeleton of the two range-map builders, payload typing',
     text='Narrow claim: range maps are built only through the two safe builders, every Range::new sits in a constructor that rejects empty and overflowing ranges, both builders sort first and on no feasible path push an entry '
          'unless last.end < range.start was established (conflicting overlaps skipped, equal neighbours merged), payloads are unique indices or self-describing records, the unloaded-module list is sorted and filtered with contains, '
-         'and modules with size 0 or overflowing base + size never enter a list. The data-structure invariant for every arrangement of ranges (lookup soundness and completeness) is not decided. The STACK WIN pre-filter drops or shortens records only under the symmetric Range::intersects test (C08.7, path-sensitive).',
+         'and modules with size 0 or overflowing base + size never enter a list. The data-structure invariant for every arrangement of ranges (lookup soundness and completeness) is not decided. The STACK WIN pre-filter drops or shortens records only under the symmetric Range::intersects test (C08.7, path-sensitive). C08.2 requires the inclusive end `checked_add(base, size - 1)?` for regions and records (an entry may end at 2^64); C08.8 the exclusive end of Linux maps lines (known finding); C08.9 a list reader never fails on one entry\'s size.',
     note='Trusted: range-map crate (RangeMap::get / try_from_iter), slice::sort_by_key. Path feasibility pruning uses purity of the comparisons and saturating_add(e,k) >= e.',
     ref='DESIGN.md §3 C08')
 CLAIMS['C10'] = dict(
@@ -144,7 +144,7 @@ CLAIMS['C11'] = dict(
     technique='sort-before-search dominance, derived-Ord field order, key projection shape, guard dominance on base subtraction; path-sensitive found-implies-reported rule',
     text='Narrow claim: the searches of symbolication run on data sorted by the very key they search (the sort dominates the store; Inlinee orders by (depth, address), PublicSymbol by address), the inlinee candidate is re-checked for depth and coverage, '
          'the module base is never subtracted from a smaller address, reported bases are the looked-up record\'s address plus the module base, the PUBLIC fallback is a reverse scan for address <= addr, and inline frames are reversed exactly once after symbolication. '
-         'That the right record is returned for every record set is not decided. Found implies reported (C11.5): path-sensitively, not-found outcomes of get_outermost_sourceloc are reached only with the lookups consulted and empty, the inline call site does not depend on the line lookup, and in fill_symbol the reporting calls post-dominate the found edges. PUBLIC cut-off: the fallback is used exactly when no previous FUNC starts at or after it (C11.6, path-sensitive).',
+         'That the right record is returned for every record set is not decided. Found implies reported (C11.5): path-sensitively, not-found outcomes of get_outermost_sourceloc are reached only with the lookups consulted and empty, the inline call site does not depend on the line lookup, and in fill_symbol the reporting calls post-dominate the found edges. PUBLIC cut-off: the fallback is used exactly when no previous FUNC starts at or after it (C11.6, path-sensitive). C11.8: empty INLINE ranges never reach the inlinee table.',
     note='Trusted: slice::binary_search_by_key, RangeMap::get, rustc MIR.',
     ref='DESIGN.md §3 C11')
 
@@ -171,7 +171,7 @@ CLAIMS['C14'] = dict(
          'exception-thread-id.or(breakpad requesting id) == Some(id) and passed the dump-writer-thread early return, and on those paths the walk context is exception_context.or(thread_context), on the others the thread\'s own context; '
          'get_crash_address reads exception_information[1] only for Windows access-violation / in-page errors with number_parameters >= 2 and truncates to 32 bits exactly when pointer_width is Bits32; ExceptionInfo is fed from get_crash_reason / get_crash_address(os, cpu); '
          'process id comes from misc info else Linux status, create time from misc info, time from the header; modules / unloaded modules / system info / handles are the streams\' values; per-frame unloaded offsets are frame.instruction - base_of_image over modules_at_address(frame.instruction) for frames without a module. '
-         'The value-level mapping exception code -> crash reason is NOT decided.',
+         'The value-level mapping exception code -> crash reason is NOT decided. C14.7: the Linux status pid has no made-up default (known finding).',
     note='Trusted: enumerate/map/collect/zip/join_all preserve positions; MinidumpThread::context and MinidumpException::context decode the right bytes (field-level reading is C02\'s claim). A behaviour-preserving rewrite of these few functions into a different dataflow shape would need the rule updated.',
     ref='DESIGN.md §3 C14')
 
